@@ -180,7 +180,11 @@ func C03(c *fw.Ctx) {
 	c.Bound("history_max_events", maxLen)
 	c.Bound("max_open_constructs", maxDepth)
 	c.R.Rule = "every well-nested history of scope events (declare/assign/read of the colliding names x y q; open/close of block, if-arm, while body, for with a header declaration, function body; calls of prelude functions that read/assign/declare x or read q; creation and call of closures) up to the length bound, each prefix closed and run as a program; leaves: the first error, and programs the domain restriction excludes; non-trivial = in domain; distinct by program text"
+	c03Pool = newProgPool(40)
 	scopeWalk(c, "scope", "x", maxLen, maxDepth)
+	// every ordered pair of an evenly spread sub-sequence of this shard's scope programs, as `{ P } { Q }`
+	composePairs(c, "scopes", c03Pool, judgeOpts{})
+	c03Pool = nil
 	// the same walk with x spelled as the name of a built-in: its program-level binding is the
 	// built-in, the only scopes that can bind it are activations of a function with such a parameter
 	bl := maxLen - 1
@@ -193,6 +197,8 @@ func C03(c *fw.Ctx) {
 	}
 	c03Escaping(c)
 }
+
+var c03Pool *progPool
 
 func scopeWalk(c *fw.Ctx, sig, xName string, maxLen, maxDepth int) {
 	builtinX := xName != "x"
@@ -207,6 +213,9 @@ func scopeWalk(c *fw.Ctx, sig, xName string, maxLen, maxDepth int) {
 		extend := true
 		if c.Mine() {
 			prog := buildScopeProgramX(hist, xName)
+			if c03Pool != nil && !builtinX {
+				c03Pool.offer(prog)
+			}
 			_, res, skipped := judge(c, prog, judgeOpts{SigPrefix: sig})
 			if !skipped {
 				c.R.States++
